@@ -226,6 +226,19 @@ class Ctx:
             raise MergeAbort()  # the guarded region itself is unreachable
         raise Infeasible()
 
+    def implied(self, cond):
+        """does the path condition imply cond?"""
+        c = simp(cond)
+        if z3.is_true(c):
+            return True
+        if z3.is_false(c):
+            return False
+        sl = z3.Solver()
+        sl.set("timeout", self.ex.feas_timeout_ms)
+        sl.add(cone_of_influence(self.pc_raw, c))
+        sl.add(z3.Not(c))
+        return sl.check() == z3.unsat
+
     def is_sat(self):
         t0 = time.time()
         r = self.solver.check()
